@@ -14,6 +14,7 @@ import Driver.C15
 import Driver.C16
 import Driver.C17
 import Driver.C20
+import Driver.Geom
 open Lean Drv
 
 def dispatch (j : Json) : Except String Json := do
@@ -34,6 +35,9 @@ def dispatch (j : Json) : Except String Json := do
   | "C16" => Drv.C16.handle j
   | "C17" => Drv.C17.handle j
   | "C20" => Drv.C20.handle j
+  | "C04" => Drv.Geom.handleC04 j
+  | "C10" => Drv.Geom.handleC10 j
+  | "C18" => Drv.Geom.handleC18 j
   | _ => throw s!"bad-property {p}"
 
 partial def loop (h : IO.FS.Stream) (out : IO.FS.Stream) : IO Unit := do
